@@ -180,6 +180,9 @@ def shard_random(sh, part, parts):
             offered = list(lst)
             if rng.random() < 0.3:
                 rng.shuffle(offered)  # same candidates, another order
+            if rng.random() < 0.25:
+                import numpy as np
+                cap = rng.choice([np.int64, np.int32, np.intp])(cap)      # a cap computed from data is a numpy integer
             mon(offered, pipe.make_args(combination_number_upper_bound=cap))
         sh.case(([len(x) for x in lists], core.h64(caps), style), any(c < len(lists[0]) for c in caps), 'random/' + style,
                 sample={'list_sizes': [len(x) for x in lists], 'caps_head': caps[:12], 'style': style} if h % 25 == 0 else None)
@@ -204,7 +207,9 @@ def shard_pipeline(sh, part):
         if rng.random() < 0.25:
             cap = rng.randint(1, nfeat + 3)     # includes caps that do not bind (list size is nfeat + 1)
         df = pd.DataFrame({c: ['v%d' % v for v in nprng.integers(0, 3, 24)] for c in cols})
-        args = pipe.make_args(heuristic=rng.choice(['Constant', 'max-value-coverage']), target_ranking_only='True', combination_number_upper_bound=cap)
+        if rng.random() < 0.4:
+            df[rng.choice(cols)] = ''            # a sparse field that is empty for this whole batch
+        args = pipe.make_args(heuristic=rng.choice(['Constant', 'max-value-coverage', 'MI-numba-randomized']), target_ranking_only='True', combination_number_upper_bound=cap)
         before = Counter(cr.GLOBAL_PRIOR_COMB_COUNTS)
         pool = TaskPool()
         ok, out = sh.call('returned-are-candidates', 'mixed_rank_graph', cr.mixed_rank_graph, df, args, pool, pipe.NullPbar())
